@@ -181,6 +181,10 @@ public:
 
     slice_t& operator=(const base_array<T>& rhs) {
         DSPLIB_ASSERT(&_base != &rhs, "Assigned array to same slice");
+        DSPLIB_ASSERT(this->size() == rhs.size(), "Slices size must be equal");
+        if (rhs.empty()) {
+            return *this;
+        }
         return (*this = rhs.slice(0, rhs.size()));
     }
 
